@@ -446,6 +446,13 @@ class TCPHiddenServiceEndpoint(object):
                 "'single_hop=' flag only makes sense for ephemeral onions"
             )
 
+        try:
+            public_port = int(public_port)
+        except (TypeError, ValueError):
+            raise ValueError(
+                "'public_port' must be an integer (got {!r})".format(public_port)
+            )
+
         self._reactor = reactor
         self._config = defer.maybeDeferred(lambda: config)
         self.public_port = public_port
